@@ -34,8 +34,14 @@ def val_maxc(ctx: Ctx) -> RuleResult:
     ok = s in ("self.max_concurrency < 1", "self.max_concurrency <= 0", "1 > self.max_concurrency", "0 >= self.max_concurrency")
     r.ob(ok, {"range test": s})
     if not ok:
-        r.violate(f"BaseDAG.__post_init__: range test '{s}' is weaker than 'max_concurrency >= 1'", f.loc(rng[0]),
-                  "a bound of 0 (or below) is accepted", s)
+        weaker = isinstance(t, ast.Compare) and len(t.ops) == 1 and isinstance(t.comparators[0], ast.Constant) and norm_src(t.left) == "self.max_concurrency" \
+            and ((isinstance(t.ops[0], ast.Lt) and t.comparators[0].value < 1) or (isinstance(t.ops[0], ast.LtE) and t.comparators[0].value < 0)
+                 or isinstance(t.ops[0], (ast.Eq,)))
+        if weaker:
+            r.violate(f"BaseDAG.__post_init__: range test '{s}' is weaker than 'max_concurrency >= 1'", f.loc(rng[0]),
+                      "a bound of 0 (or below) is accepted", s)
+        else:
+            raise Undecided(f"BaseDAG.__post_init__: range test not recognised: {s}")
     # the type test precedes the comparison
     if ty and rng:
         r.ob(ty[0].lineno < rng[0].lineno, {"type test first": True})
@@ -192,8 +198,6 @@ def val_executed(ctx: Ctx) -> RuleResult:
     r.ob(len(ifs) == 1, {"second run refused": len(ifs) == 1})
     if not ifs:
         r.violate("BaseDAGExecution._pre_call: an executed executor is not refused", pre.loc(), "", None)
-    elif pre.node.body.index(ifs[0]) > 1:
-        r.violate("BaseDAGExecution._pre_call: the refusal is not the first action", pre.loc(ifs[0]), "", None)
     sets = [n for n in iter_own_nodes(post.node) if isinstance(n, ast.Assign) and norm_src(n.targets[0]) == "self.executed"
             and isinstance(n.value, ast.Constant) and n.value.value is True]
     r.ob(len(sets) == 1, {"flag set after the run": len(sets) == 1})
